@@ -138,5 +138,8 @@ BASE_SETS = {
     "cdef": ("pace", "stone", "beat", "degree_a"),
     "calt": ("league", "feather", "blink", "millidegree_a"),
     "cbig": ("gigapace", "mountain", "age", "degree_a"),
+    # sub-multiples whose powers leave the range of f32 (1e-15 ^ 3) and of i32 as a ratio (10^6 ^ 2): same-base operations must not care
+    "ufs": ("micrometer", "milligram", "femtosecond", "ampere", "kelvin", "mole", "candela"),
+    "ums": ("micrometer", "milligram", "microsecond", "ampere", "kelvin", "mole", "candela"),
     "tiny": ("yoctometer", "yoctogram", "yoctosecond", "yoctoampere", "yoctokelvin", "yoctomole", "yoctocandela"),
 }
